@@ -62,6 +62,8 @@ type slicer struct {
 func (p *Program) SliceOf(v ssa.Value, opts SliceOpts) *Slice {
 	if opts.Depth == 0 {
 		opts.Depth = 4
+	} else if opts.Depth < 0 {
+		opts.Depth = 0 // NoDescend: repo calls are leaves
 	}
 	s := &Slice{p: p, Leaves: map[string]bool{}, LeafVals: map[string][]ssa.Value{}, Values: map[ssa.Value]bool{}, Calls: map[ssa.CallInstruction]bool{}}
 	sl := &slicer{s: s, opts: opts, seen: map[visitKey]bool{}}
@@ -73,6 +75,8 @@ func (p *Program) SliceOf(v ssa.Value, opts SliceOpts) *Slice {
 func (p *Program) SliceOfMany(vs []ssa.Value, opts SliceOpts) *Slice {
 	if opts.Depth == 0 {
 		opts.Depth = 4
+	} else if opts.Depth < 0 {
+		opts.Depth = 0 // NoDescend: repo calls are leaves
 	}
 	s := &Slice{p: p, Leaves: map[string]bool{}, LeafVals: map[string][]ssa.Value{}, Values: map[ssa.Value]bool{}, Calls: map[ssa.CallInstruction]bool{}}
 	sl := &slicer{s: s, opts: opts, seen: map[visitKey]bool{}}
